@@ -2,6 +2,7 @@ package message
 
 import (
 	"database/sql"
+	"errors"
 	"fmt"
 	"math"
 	"net"
@@ -20,11 +21,12 @@ import (
 // ===== FETCH =====
 
 // HandleFetchForUIDs handles FETCH for a list of UIDs (used by UID FETCH command)
-func HandleFetchForUIDs(deps ServerDeps, conn net.Conn, tag string, uids []int, items string, state *models.ClientState) {
+// It returns an error when the content of a message could not be read; nothing has been sent for that message
+func HandleFetchForUIDs(deps ServerDeps, conn net.Conn, tag string, uids []int, items string, state *models.ClientState) error {
 	// Get appropriate database (user or role mailbox)
 	targetDB, _, err := deps.GetSelectedDB(state)
 	if err != nil {
-		return
+		return nil
 	}
 
 	for _, uid := range uids {
@@ -47,8 +49,11 @@ func HandleFetchForUIDs(deps ServerDeps, conn net.Conn, tag string, uids []int, 
 		}
 
 		// Process this message using the same logic as handleFetch
-		processFetchForMessage(deps, conn, messageID, int64(uid), seqNum, flags.String, items, state)
+		if err := processFetchForMessage(deps, conn, messageID, int64(uid), seqNum, flags.String, items, state); err != nil {
+			return err
+		}
 	}
+	return nil
 }
 
 func HandleFetch(deps ServerDeps, conn net.Conn, tag string, parts []string, state *models.ClientState) {
@@ -128,19 +133,26 @@ func HandleFetch(deps ServerDeps, conn net.Conn, tag string, parts []string, sta
 		}
 
 		// Process this message under its own sequence number
-		processFetchForMessage(deps, conn, messageID, uid, seqNum, flags, items, state)
+		if err := processFetchForMessage(deps, conn, messageID, uid, seqNum, flags, items, state); err != nil {
+			deps.SendResponse(conn, fmt.Sprintf("%s NO FETCH failed: message content cannot be read", tag))
+			return
+		}
 	}
 
 	deps.SendResponse(conn, fmt.Sprintf("%s OK FETCH completed", tag))
 }
 
-// processFetchForMessage processes a single message for FETCH/UID FETCH
-func processFetchForMessage(deps ServerDeps, conn net.Conn, messageID, uid int64, seqNum int, flags, items string, state *models.ClientState) {
+// processFetchForMessage processes a single message for FETCH/UID FETCH. When content kept in the object store
+// cannot be read it sends nothing for the message and returns the error: an unreadable part is not an empty part
+func processFetchForMessage(deps ServerDeps, conn net.Conn, messageID, uid int64, seqNum int, flags, items string, state *models.ClientState) error {
 	// Get appropriate database (user or role mailbox)
 	targetDB, _, err := deps.GetSelectedDB(state)
 	if err != nil {
-		return
+		return nil
 	}
+
+	// The first failure to read content from the object store
+	var blobErr *parser.BlobReadError
 
 	// Lazy-load the full reconstructed message only when needed
 	var rawMsg string
@@ -152,6 +164,9 @@ func processFetchForMessage(deps ServerDeps, conn net.Conn, messageID, uid int64
 			s3Storage := deps.GetS3Storage()
 			rawMsg, rawMsgErr = parser.ReconstructMessageWithSharedDBAndS3(sharedDB, targetDB, messageID, s3Storage)
 			if rawMsgErr != nil {
+				if blobErr == nil {
+					errors.As(rawMsgErr, &blobErr)
+				}
 				return ""
 			}
 			if !strings.Contains(rawMsg, "\r\n") {
@@ -310,20 +325,12 @@ func processFetchForMessage(deps ServerDeps, conn net.Conn, messageID, uid int64
 								// Get shared database for blob retrieval (blobs are now in shared DB)
 								sharedDB := deps.GetSharedDB()
 
-								// Try local storage first
-								if content, err := db.GetBlob(sharedDB, blobID); err == nil && content != "" {
-									payload = content
-								} else {
-									// Try S3 storage
-									s3Storage := deps.GetS3Storage()
-									if s3Storage != nil && s3Storage.IsEnabled() {
-										if s3BlobID, storageType, err := db.GetBlobS3BlobID(sharedDB, blobID); err == nil && storageType == "s3" && s3BlobID != "" {
-											if content, err := s3Storage.Retrieve(s3BlobID); err == nil {
-												payload = content
-											}
-										}
-									}
+								// Local storage first, then the object store
+								content, err := parser.LoadBlobContent(sharedDB, blobID, deps.GetS3Storage())
+								if err != nil && blobErr == nil {
+									errors.As(err, &blobErr)
 								}
+								payload = content
 							} else if textContent, ok := target["text_content"].(string); ok {
 								payload = textContent
 							}
@@ -541,11 +548,16 @@ func processFetchForMessage(deps ServerDeps, conn net.Conn, messageID, uid int64
 		responseParts = append(responseParts, "BODY[] "+literal(msg))
 	}
 
+	if blobErr != nil {
+		return blobErr
+	}
+
 	if len(responseParts) > 0 {
 		deps.SendResponse(conn, fmt.Sprintf("* %d FETCH (%s)", seqNum, strings.Join(responseParts, " ")))
 	} else {
 		deps.SendResponse(conn, fmt.Sprintf("* %d FETCH (FLAGS ())", seqNum))
 	}
+	return nil
 }
 
 // mapASCII shifts the bytes lo..hi by delta and leaves everything else alone, so the result has the length of s
